@@ -27,12 +27,13 @@ Lemma items_papp en props p q : forall pc,
   items en props pc (papp p q) = items en props pc p ++ items en props (pc + zlen (compile_p p)) q.
 Proof.
   induction p as [|s r IH|c a _ r IH|c a _ eb _ r IH|c a _ r IH]; intros pc; cbn [papp items compile_p app].
-  - rewrite zlen_nil, Z.add_0_r. reflexivity.
+  - f_equal. cbn. lia.
   - rewrite IH, zlen_app. f_equal. f_equal. f_equal. lia.
   - rewrite IH, !zlen_app. change (zlen (jz (3 + zlen (compile_p a)))) with 3. f_equal. f_equal. f_equal. lia.
   - rewrite IH, !zlen_app. change (zlen (jz (3 + zlen (compile_p a) + 3))) with 3. change (zlen (jmp (3 + zlen (compile_p eb)))) with 3.
     f_equal. f_equal. f_equal. lia.
-  - rewrite IH, !zlen_app. change (zlen (jz (3 + zlen (compile_p a) + 2))) with 3. rewrite zlen_cons, zlen_cons, zlen_nil.
+  - rewrite IH, !zlen_app. change (zlen (jz (3 + zlen (compile_p a) + 2))) with 3.
+    rewrite !zlen_cons.
     f_equal. f_equal. f_equal. lia.
 Qed.
 
@@ -55,3 +56,313 @@ Qed.
 Lemma in_list_no cn pc k nm p fl cr body : is_const (Leaf k nm p fl) = false ->
   is_repeat_with_in_list (Binary cn pc (Leaf k nm p fl) cr) body = Ok None.
 Proof. intros H. unfold is_repeat_with_in_list. destruct cr; try reflexivity. rewrite H. reflexivity. Qed.
+
+(* ---- node equality on statements is equality of positions ---- *)
+Lemma node_eq_stmt p c p' c' : node_eq (Stmt p c) (Stmt p' c') = (p =? p').
+Proof. reflexivity. Qed.
+
+Definition spos (lo : Z) (st : node) : Prop := match st with Stmt p _ => lo <= p | _ => False end.
+Definition shead (hi : Z) (st : node) : Prop := match st with Stmt p _ => p < hi | _ => False end.
+
+Lemma spos_weaken lo lo' l : Forall (spos lo) l -> lo' <= lo -> Forall (spos lo') l.
+Proof. intros H Hl. eapply Forall_impl; [|exact H]. intros x Hx. destruct x; try contradiction. cbn [spos] in *. lia. Qed.
+
+(* removing, one after the other, elements that all lie after the head leaves the head in place *)
+Lemma remove_all_skip_head x hi I : shead hi x -> Forall (spos hi) I -> forall X Y,
+  remove_all I X = Ok Y -> remove_all I (x :: X) = Ok (x :: Y).
+Proof.
+  intros Hx HI. unfold remove_all. induction HI as [|i I Hi _ IH]; intros X Y H.
+  - cbn in *. injection H as <-. reflexivity.
+  - cbn [fold_left bind] in *.
+    destruct (remove_first i X) as [X1|] eqn:E.
+    + cbn [of_option] in H. cbn [remove_first].
+      assert (Hne : node_eq x i = false).
+      { destruct x; try contradiction. destruct i; try contradiction. cbn [shead spos] in *. rewrite node_eq_stmt. apply Z.eqb_neq. lia. }
+      rewrite Hne, E. cbn [option_map of_option]. apply IH. exact H.
+    + cbn [of_option] in H. exfalso.
+      assert (Hf : forall l, fold_left (fun acc s => let! a := acc in of_option EValue (remove_first s a)) l (Err EValue) = Err EValue)
+        by (induction l; [reflexivity | cbn [fold_left bind]; assumption]).
+      rewrite Hf in H. discriminate H.
+Qed.
+
+Lemma remove_all_head x I X : node_eq x x = true -> remove_all (x :: I) (x :: X) = remove_all I X.
+Proof. intros H. unfold remove_all. cbn [fold_left bind remove_first]. rewrite H. reflexivity. Qed.
+
+(* ---- positions ---- *)
+Lemma code2_nonneg q : 0 <= zlen (code2 q). Proof. apply zlen_nonneg. Qed.
+
+Lemma reify_s_spos en props pc s : spos pc (reify_s en props pc s) /\ shead (pc + zlen (compile_s s)) (reify_s en props pc s).
+Proof.
+  pose proof (reify_s_pos en props pc s) as H.
+  destruct s as [t e|f args|f args]; cbn [reify_s] in *; try (destruct (reify_args en pc args)); cbn [pos_of spos shead] in *; lia.
+Qed.
+
+Lemma for_lens down v lo hi :
+  zlen (compile_s (for_init v lo)) = zlen (compile_e lo) + 2 /\
+  zlen (compile_e (for_cond down v hi)) = 2 + zlen (compile_e hi) + 1 /\
+  0 <= zlen (compile_s (for_step down v)).
+Proof.
+  split; [|split; [|apply zlen_nonneg]].
+  - unfold for_init. cbn [compile_s compile_store]. rewrite zlen_app. reflexivity.
+  - unfold for_cond. cbn [compile_e]. rewrite !zlen_app. change (zlen [b 76; b (scaled v)]) with 2.
+    change (zlen [b (bcode (if down then Gte else Lte))]) with 1. lia.
+Qed.
+
+Lemma inits_spos en props : forall q pc, Forall (spos pc) (inits en props pc q).
+Proof.
+  induction q as [|s r IH|c a _ r IH|c a _ eb _ r IH|c a _ r IH|down v lo hi a _ r IH]; intros pc; cbn [inits].
+  - constructor.
+  - apply (spos_weaken _ _ _ (IH _)). pose proof (zlen_nonneg (compile_s s)). lia.
+  - apply (spos_weaken _ _ _ (IH _)). pose proof (zlen_nonneg (compile_e c)). pose proof (code2_nonneg a). lia.
+  - apply (spos_weaken _ _ _ (IH _)). pose proof (zlen_nonneg (compile_e c)). pose proof (code2_nonneg a). pose proof (code2_nonneg eb). lia.
+  - apply (spos_weaken _ _ _ (IH _)). pose proof (zlen_nonneg (compile_e c)). pose proof (code2_nonneg a). lia.
+  - destruct (for_lens down v lo hi) as (L1 & L2 & L3). pose proof (zlen_nonneg (compile_e lo)). pose proof (zlen_nonneg (compile_e hi)).
+    pose proof (code2_nonneg a).
+    constructor; [apply reify_s_spos|]. apply (spos_weaken _ _ _ (IH _)). lia.
+Qed.
+
+(* ---- deleting the initial assignments at the end of a level ---- *)
+Lemma removal en props : forall q pc X,
+  remove_all (inits en props pc q) (final_k true en props pc q ++ X) = Ok (final_k false en props pc q ++ X).
+Proof.
+  induction q as [|s r IH|c a _ r IH|c a _ eb _ r IH|c a _ r IH|down v lo hi a _ r IH]; intros pc X; cbn [inits final_k app].
+  - reflexivity.
+  - apply (remove_all_skip_head _ (pc + zlen (compile_s s))); [apply reify_s_spos | apply inits_spos | apply IH].
+  - pose proof (code2_nonneg a).
+    apply (remove_all_skip_head _ (pc + zlen (compile_e c) + 3 + zlen (code2 a))); [cbn [shead]; lia | apply inits_spos | apply IH].
+  - pose proof (code2_nonneg a). pose proof (code2_nonneg eb).
+    apply (remove_all_skip_head _ (pc + zlen (compile_e c) + 3 + zlen (code2 a) + 3 + zlen (code2 eb))); [cbn [shead]; lia | apply inits_spos | apply IH].
+  - pose proof (code2_nonneg a).
+    apply (remove_all_skip_head _ (pc + zlen (compile_e c) + 3 + zlen (code2 a) + 2)); [unfold loop_stmt; cbn [shead]; lia | apply inits_spos | apply IH].
+  - destruct (for_lens down v lo hi) as (L1 & L2 & L3). pose proof (code2_nonneg a).
+    rewrite remove_all_head by (destruct (reify_s_spos en props pc (for_init v lo)) as [K _];
+                                 destruct (reify_s en props pc (for_init v lo)); try contradiction; rewrite node_eq_stmt; apply Z.eqb_refl).
+    match goal with |- remove_all ?I (Stmt ?pe ?c :: ?Y) = _ => apply (remove_all_skip_head _ (pe + 2)); [cbn [shead]; lia | apply inits_spos | apply IH] end.
+Qed.
+
+(* ---- the converted statement list of a program with counting loops ---- *)
+Definition T (en : env) (props : list string) (pc : Z) (q : prog2) : list node := trees (items en props pc (desugar q)).
+
+Fixpoint depth2 (q : prog2) : nat :=
+  match q with
+  | QNil => O
+  | QStmt _ r => depth2 r
+  | QIf _ a r => Nat.max (S (depth2 a)) (depth2 r)
+  | QIfE _ a eb r => Nat.max (S (Nat.max (depth2 a) (depth2 eb))) (depth2 r)
+  | QWhile _ a r => Nat.max (S (depth2 a)) (depth2 r)
+  | QFor _ _ _ _ a r => Nat.max (S (depth2 a)) (depth2 r)
+  end.
+
+Lemma str_of_int_1 : str_of_int 1 = "1"%string. Proof. reflexivity. Qed.
+Lemma str_of_int_m1 : str_of_int (-1) = "-1"%string. Proof. reflexivity. Qed.
+
+Lemma trees_snoc l x : trees (l ++ [x]) = trees l ++ [tree_i x].
+Proof. rewrite trees_app. reflexivity. Qed.
+
+Section LD.
+  Variables (en : env) (props : list string).
+  Variable f : nat.
+  Hypothesis IHf : forall q pc, ok2 en q -> (depth2 q < f)%nat -> loop_detect (S f) (T en props pc q) = Ok (final en props pc q).
+
+  Lemma fold_for : forall q pc, ok2 en q -> (depth2 q < S f)%nat -> forall out prev rm,
+    exists prev', fold_left (ld_step (S f)) (T en props pc q) (Ok (out, prev, rm))
+                  = Ok (out ++ final_k true en props pc q, prev', rm ++ inits en props pc q).
+  Proof.
+    unfold T.
+    induction q as [|s r IH|c a _ r IH|c a _ eb _ r IH|c a _ r IH|down v lo hi a _ r IH]; intros pc Hok Hd out prev rm;
+      cbn [desugar items trees final_k inits depth2 ok2] in *.
+    - exists prev. rewrite !app_nil_r. reflexivity.
+    - cbn [tree_i fold_left].
+      assert (Es : ld_step (S f) (Ok (out, prev, rm)) (reify_s en props pc s)
+                   = Ok (out ++ [reify_s en props pc s], Some (reify_s en props pc s), rm)).
+      { pose proof (reify_s_plain en props pc s) as Hp. destruct (reify_s en props pc s); try discriminate Hp.
+        destruct n; try discriminate Hp; reflexivity. }
+      rewrite Es. destruct (IH (pc + zlen (compile_s s)) Hok Hd (out ++ [reify_s en props pc s]) (Some (reify_s en props pc s)) rm) as [p' E].
+      exists p'. rewrite E, <- app_assoc. reflexivity.
+    - destruct Hok as [Ha Hr]. rewrite tree_if. cbn [fold_left].
+      set (pj := pc + zlen (compile_e c)). fold (code2 a).
+      assert (Es : ld_step (S f) (Ok (out, prev, rm)) (Stmt pj (IfThen pj (reify_e en pc c) (trees (items en props (pj + 3) (desugar a))) []))
+                   = Ok (out ++ [Stmt pj (IfThen pj (reify_e en pc c) (final_k false en props (pj + 3) a) [])],
+                         Some (Stmt pj (IfThen pj (reify_e en pc c) (final_k false en props (pj + 3) a) [])), rm)).
+      { cbn [ld_step bind]. fold (T en props (pj + 3) a). rewrite (IHf a (pj + 3) Ha) by lia. cbn [bind]. rewrite loop_detect_nil. reflexivity. }
+      rewrite Es. destruct (IH (pj + 3 + zlen (code2 a)) Hr ltac:(lia) (out ++ [Stmt pj (IfThen pj (reify_e en pc c) (final_k false en props (pj + 3) a) [])])
+                               (Some (Stmt pj (IfThen pj (reify_e en pc c) (final_k false en props (pj + 3) a) []))) rm) as [p' E].
+      exists p'. unfold code2 in *. rewrite E, <- app_assoc. reflexivity.
+    - destruct Hok as (Ha & He & Hr). rewrite tree_ife. cbn [fold_left].
+      set (pj := pc + zlen (compile_e c)). fold (code2 a). fold (code2 eb).
+      set (jp := pj + 3 + zlen (code2 a)).
+      assert (Es : ld_step (S f) (Ok (out, prev, rm)) (Stmt pj (IfThen pj (reify_e en pc c) (trees (items en props (pj + 3) (desugar a))) (trees (items en props (jp + 3) (desugar eb)))))
+                   = Ok (out ++ [Stmt pj (IfThen pj (reify_e en pc c) (final_k false en props (pj + 3) a) (final_k false en props (jp + 3) eb))],
+                         Some (Stmt pj (IfThen pj (reify_e en pc c) (final_k false en props (pj + 3) a) (final_k false en props (jp + 3) eb))), rm)).
+      { cbn [ld_step bind]. fold (T en props (pj + 3) a). rewrite (IHf a (pj + 3) Ha) by lia. cbn [bind].
+        fold (T en props (jp + 3) eb). rewrite (IHf eb (jp + 3) He) by lia. reflexivity. }
+      unfold code2 in *. rewrite Es.
+      destruct (IH (jp + 3 + zlen (compile_p (desugar eb))) Hr ltac:(lia) (out ++ [Stmt pj (IfThen pj (reify_e en pc c) (final_k false en props (pj + 3) a) (final_k false en props (jp + 3) eb))])
+                   (Some (Stmt pj (IfThen pj (reify_e en pc c) (final_k false en props (pj + 3) a) (final_k false en props (jp + 3) eb)))) rm) as [p' E].
+      exists p'. rewrite E, <- app_assoc. reflexivity.
+    - destruct Hok as (Hc & Ha & Hr). rewrite tree_while. cbn [fold_left].
+      set (pj := pc + zlen (compile_e c)). fold (code2 a).
+      set (pe := pj + 3 + zlen (code2 a)).
+      assert (Es : ld_step (S f) (Ok (out, prev, rm)) (loop_stmt pc pe (true_at pc) (exit_if pj (reify_e en pc c) :: trees (items en props (pj + 3) (desugar a))))
+                   = Ok (out ++ [loop_stmt pc pe (reify_e en pc c) (final_k false en props (pj + 3) a)],
+                         Some (loop_stmt pc pe (reify_e en pc c) (final_k false en props (pj + 3) a)), rm)).
+      { unfold loop_stmt, exit_if. cbn [ld_step bind is_repeat_while]. change (String.eqb "not" "not") with true. cbn [tl].
+        rewrite (is_repeat_with_no _ _ prev (Hc pc)), (is_repeat_with_in_list_no _ _ (Hc pc)). cbn [bind].
+        fold (T en props (pj + 3) a). rewrite (IHf a (pj + 3) Ha) by lia. reflexivity. }
+      unfold code2 in *. rewrite Es.
+      destruct (IH (pe + 2) Hr ltac:(lia) (out ++ [loop_stmt pc pe (reify_e en pc c) (final_k false en props (pj + 3) a)])
+                   (Some (loop_stmt pc pe (reify_e en pc c) (final_k false en props (pj + 3) a))) rm) as [p' E].
+      exists p'. rewrite E, <- app_assoc. reflexivity.
+    - (* the counting loop: the initial assignment, then the loop with the step as last statement *)
+      destruct Hok as (Hv & Ha & Hr).
+      rewrite tree_while. cbn [tree_i fold_left].
+      rewrite items_papp. cbn [items]. rewrite trees_snoc. cbn [tree_i].
+      set (L := nth v (e_locals en) (Leaf KLocal "" 0 true)) in *.
+      set (ps := pc + zlen (compile_s (for_init v lo))).
+      set (cnd := for_cond down v hi).
+      set (pj := ps + zlen (compile_e cnd)).
+      set (pstep := pj + 3 + zlen (compile_p (desugar a))).
+      rewrite compile_papp, zlen_app. cbn [compile_p]. rewrite app_nil_r.
+      set (pe := pj + 3 + (zlen (compile_p (desugar a)) + zlen (compile_s (for_step down v)))).
+      (* the initial assignment is a plain statement *)
+      assert (Ei : reify_s en props pc (for_init v lo) = Stmt (pc + zlen (compile_e lo)) (Binary "assign" (pc + zlen (compile_e lo)) L (reify_e en pc lo)))
+        by reflexivity.
+      rewrite Ei. cbn [ld_step bind].
+      (* the loop statement *)
+      assert (Ec : reify_e en ps cnd = Binary (if down then "gte" else "lte") (ps + 2 + zlen (compile_e hi)) L (reify_e en (ps + 2) hi)).
+      { unfold cnd, for_cond. cbn [reify_e compile_e]. change (zlen [b 76; b (scaled v)]) with 2. destruct down; reflexivity. }
+      assert (Est : reify_s en props pstep (for_step down v) = step_node down L pstep (pstep + zlen (compile_int (if down then -1 else 1)) + 2)
+                                                                (pstep + zlen (compile_e (EBin Add (EInt (if down then -1 else 1)) (ELoc v))))).
+      { unfold for_step, step_node. cbn [reify_s reify_e target_node compile_e]. rewrite !zlen_app.
+        change (zlen [b 76; b (scaled v)]) with 2. change (zlen [b (bcode Add)]) with 1.
+        destruct down; cbn [bname]; rewrite ?str_of_int_1, ?str_of_int_m1; do 3 f_equal; try lia; f_equal; lia. }
+      rewrite Est, Ec.
+      unfold loop_stmt, exit_if. cbn [ld_step bind is_repeat_while]. change (String.eqb "not" "not") with true. cbn [tl].
+      rewrite is_repeat_with_yes. rewrite rev_app_distr. cbn [rev app]. unfold step_node at 1. rewrite rev_involutive.
+      assert (HL : is_const L = false) by (subst L; destruct (nth v (e_locals en) (Leaf KLocal "" 0 true)); try contradiction; destruct k; try contradiction; reflexivity).
+      assert (Einl : is_repeat_with_in_list (Binary (if down then "gte" else "lte") (ps + 2 + zlen (compile_e hi)) L (reify_e en (ps + 2) hi))
+                                            (trees (items en props (pj + 3) (desugar a))) = Ok None).
+      { subst L. destruct (nth v (e_locals en) (Leaf KLocal "" 0 true)); try contradiction. apply in_list_no. exact HL. }
+      rewrite Einl. cbn [bind]. fold (T en props (pj + 3) a). rewrite (IHf a (pj + 3) Ha) by lia. cbn [bind].
+      unfold code2 in *.
+      match goal with |- exists p', fold_left _ _ (Ok (?o, ?pv, ?r0)) = _ =>
+        destruct (IH (pe + 2) Hr ltac:(lia) o pv r0) as [p1 E] end.
+      exists p1. 
+      replace (pj + 3 + zlen (compile_p (desugar a)) + zlen (compile_s (for_step down v)) + 2) with (pe + 2) by (subst pe; lia).
+      replace (ps + zlen (compile_e (for_cond down v hi)) + 3 + zlen (compile_p (desugar a)) + zlen (compile_s (for_step down v)) + 2) with (pe + 2)
+        by (subst pe pj cnd; lia).
+      rewrite E. 
+      assert (Hsign : (if is_const (Leaf KConst (if down then "-1" else "1")%string pstep true) && name_is (Leaf KConst (if down then "-1" else "1")%string pstep true) "-1"
+                       then "-"%string else "+"%string) = (if down then "-" else "+")%string) by (destruct down; reflexivity).
+      rewrite Hsign. unfold final.
+      replace (pj + 3 + zlen (compile_p (desugar a)) + zlen (compile_s (for_step down v))) with pe by (subst pe; lia).
+      rewrite <- !app_assoc. reflexivity.
+  Qed.
+End LD.
+
+(* ---- loop_detect on a whole level, followed by plain statements (the handler's exit) ---- *)
+Lemma ld_plain_tail f : forall tl out prev rm, forallb plain_stmt tl = true ->
+  exists prev', fold_left (ld_step f) tl (Ok (out, prev, rm)) = Ok (out ++ tl, prev', rm).
+Proof.
+  induction tl as [|st tl IH]; intros out prev rm H; [exists prev; rewrite app_nil_r; reflexivity|].
+  cbn [forallb] in H. apply andb_true_iff in H. destruct H as [H1 H2]. cbn [fold_left].
+  assert (Es : ld_step f (Ok (out, prev, rm)) st = Ok (out ++ [st], Some st, rm))
+    by (destruct st; try discriminate H1; destruct st; try discriminate H1; reflexivity).
+  rewrite Es. destruct (IH (out ++ [st]) (Some st) rm H2) as [p' E]. exists p'. rewrite E, <- app_assoc. reflexivity.
+Qed.
+
+Theorem loop_detect_for en props : forall f q pc tl, ok2 en q -> (depth2 q < f)%nat -> forallb plain_stmt tl = true ->
+  loop_detect (S f) (T en props pc q ++ tl) = Ok (final en props pc q ++ tl).
+Proof.
+  induction f as [|f IHf]; intros q pc tl Hok Hd Htl; [lia|].
+  rewrite loop_detect_unfold, fold_left_app.
+  assert (IH0 : forall q pc, ok2 en q -> (depth2 q < f)%nat -> loop_detect (S f) (T en props pc q) = Ok (final en props pc q)).
+  { intros q0 pc0 H0 Hd0. pose proof (IHf q0 pc0 [] H0 Hd0 eq_refl) as E. rewrite !app_nil_r in E. exact E. }
+  destruct (fold_for en props f IH0 q pc Hok Hd [] None []) as [p1 E1]. rewrite E1.
+  destruct (ld_plain_tail (S f) tl ([] ++ final_k true en props pc q) p1 ([] ++ inits en props pc q) Htl) as [p2 E2]. rewrite E2.
+  cbn [bind app]. apply removal.
+Qed.
+Print Assumptions loop_detect_for.
+
+(* ---- depth of the desugared items ---- *)
+Lemma depths_app l1 l2 : depths (l1 ++ l2) = Nat.max (depths l1) (depths l2).
+Proof. induction l1 as [|x r IH]; [reflexivity|]. cbn [app depths]. rewrite IH. lia. Qed.
+
+Lemma depth2_le en props : forall q pc, (depth2 q <= depths (items en props pc (desugar q)))%nat.
+Proof.
+  induction q as [|s r IH|c a IHa r IH|c a IHa eb IHe r IH|c a IHa r IH|down v lo hi a IHa r IH]; intros pc; cbn [desugar items depth2].
+  - reflexivity.
+  - rewrite depths_cons. specialize (IH (pc + zlen (compile_s s))). cbn [depth_i]. lia.
+  - rewrite depths_cons, depth_if. specialize (IHa (pc + zlen (compile_e c) + 3)). specialize (IH (pc + zlen (compile_e c) + 3 + zlen (compile_p (desugar a)))). lia.
+  - rewrite depths_cons, depth_ife. specialize (IHa (pc + zlen (compile_e c) + 3)).
+    specialize (IHe (pc + zlen (compile_e c) + 3 + zlen (compile_p (desugar a)) + 3)).
+    specialize (IH (pc + zlen (compile_e c) + 3 + zlen (compile_p (desugar a)) + 3 + zlen (compile_p (desugar eb)))). lia.
+  - rewrite depths_cons, depth_while. specialize (IHa (pc + zlen (compile_e c) + 3)).
+    specialize (IH (pc + zlen (compile_e c) + 3 + zlen (compile_p (desugar a)) + 2)). lia.
+  - rewrite !depths_cons, depth_while, items_papp, depths_app.
+    specialize (IHa (pc + zlen (compile_s (for_init v lo)) + zlen (compile_e (for_cond down v hi)) + 3)).
+    match goal with |- context [items en props ?x (desugar r)] => specialize (IH x) end. cbn [depth_i]. lia.
+Qed.
+
+Lemma depth_le_count_any wc : forall l lo hi, @wp wc lo hi l ->
+  (depths l <= stmts_count (flats l))%nat /\ (depths l <= stmts_count (trees l))%nat.
+Proof.
+  induction 1 as [lo hi H | lo hi st r Hp Hlo Hr IH | lo hi p c a body r Hlo Hne Hb IHb Hr IHr
+                 | lo hi p c eb body jp je ebody r Hlo Hne Hne' Hb IHb Hj He IHe Hr IHr
+                 | lo hi done ps pj c pe body r Hlo Hpj Hc Hb IHb Hr IHr].
+  - split; reflexivity.
+  - destruct IH as [I1 I2]. unfold stmts_count in *. cbn [flats flat_i trees tree_i app depths depth_i fold_right]. rewrite Nat.max_0_l. split; lia.
+  - destruct IHb as [B1 B2]. destruct IHr as [R1 R2]. rewrite depths_cons, depth_if. cbn [flats trees]. rewrite flat_if, tree_if.
+    unfold stmts_count in *. cbn [app fold_right stmt_count]. rewrite fold_right_app.
+    rewrite (count_split (flats body)). split; lia.
+  - destruct IHb as [B1 B2]. destruct IHe as [E1 E2]. destruct IHr as [R1 R2]. rewrite depths_cons, depth_ife. cbn [flats trees]. rewrite flat_ife, tree_ife.
+    unfold stmts_count in *. cbn [app fold_right stmt_count]. rewrite !fold_right_app. cbn [fold_right stmt_count].
+    rewrite (count_split (flats body)), (count_split (flats ebody)). split; lia.
+  - destruct IHb as [B1 B2]. destruct IHr as [R1 R2]. rewrite depths_cons, depth_while. cbn [flats trees]. rewrite flat_while, tree_while.
+    unfold stmts_count, loop_stmt, exit_if in *. cbn [app fold_right stmt_count]. destruct done; cbn [fold_right stmt_count]; split; lia.
+Qed.
+
+(* ---- a whole handler with counting loops ---- *)
+Definition any_cond (c : node) : bool := true.
+
+Theorem for_handler en props q d off fuel r m :
+  wf_p any_cond en (desugar q) -> ok2 en q -> agrees_p en props m -> m_stack m = [] -> f_stmts (m_fn m) = [] ->
+  code_at d off (code2 q ++ [b 1]) ->
+  let pexit := off + zlen (code2 q) in
+  let exit_st := Stmt pexit (Call "exit" pexit None true false false) in
+  exists r' m',
+    run_ops (ninstr_p (desugar q) + (1 + fuel)) d off (zlen (code2 q ++ [b 1])) off r m = Ok (r', m') /\
+    detect (f_stmts (m_fn m')) = Ok (final en props off q ++ [exit_st]).
+Proof.
+  intros Hwf Hok Hag Hst Hnil Hc pexit exit_st. unfold code2 in *. set (p := desugar q) in *.
+  rewrite zlen_app, zlen_cons, zlen_nil in *.
+  apply code_at_app in Hc. destruct Hc as [Hcb Hce]. pose proof (zlen_nonneg (compile_p p)).
+  assert (Hsi : sinv off m) by (unfold sinv; rewrite Hnil; constructor).
+  destruct (exec_p any_cond en props p Hwf d off (zlen (compile_p p) + (1 + 0)) off (1 + fuel)%nat r m Hag Hst Hsi Hcb ltac:(lia) ltac:(lia)) as [r1 E1].
+  rewrite E1. set (m1 := after_p en props off p m).
+  assert (Hs : step d pexit r1 m1 = Ok (pexit + 1, r1, add_stmt m1 pexit (Call "exit" pexit None true false false))).
+  { apply (step_1 d pexit r1 m1 (b 1) "ExitOpcode" "" OExit _ Hce); [vm_compute; reflexivity | reflexivity | intros; reflexivity]. }
+  cbn [Nat.add]. erewrite run_ops_step; [| subst pexit; lia | exact Hs].
+  rewrite run_ops_end by (subst pexit; lia).
+  eexists; eexists; split; [reflexivity|].
+  destruct (after_p_facts en props p off m Hag) as (_ & _ & Hsts).
+  assert (Hf : f_stmts (m_fn (add_stmt m1 pexit (Call "exit" pexit None true false false))) = flats (items en props off p) ++ [exit_st]).
+  { unfold add_stmt. cbn [m_fn f_stmts set_stmts]. subst m1. rewrite Hsts, Hnil. reflexivity. }
+  rewrite Hf.
+  assert (Hwp0 : @wp any_cond off pexit (items en props off p)) by (apply items_wp; exact Hwf).
+  assert (Hwp : @wp any_cond off (pexit + 1) (items en props off p ++ [IPlain exit_st])).
+  { apply (wp_app off pexit); [exact Hwp0|].
+    apply wp_plain; [reflexivity | cbn [pos_of exit_st]; lia | apply wp_nil; cbn [pos_of exit_st]; lia]. }
+  unfold detect.
+  destruct (depth_le_count_any any_cond _ _ _ Hwp) as [H1 H2].
+  pose proof (condition_detect_nest (S (S (stmts_count (flats (items en props off p) ++ [exit_st])))) None
+                (items en props off p ++ [IPlain exit_st]) off (pexit + 1) [] Hwp I (Forall_nil _)) as Ecd.
+  rewrite flats_app, trees_app in Ecd. cbn [flats flat_i trees tree_i app] in Ecd. rewrite ?app_nil_r in Ecd.
+  rewrite flats_app in H1. cbn [flats flat_i app] in H1. rewrite ?app_nil_r in H1.
+  rewrite Ecd by lia. cbn [bind].
+  fold (T en props off q). 
+  rewrite trees_app in H2. cbn [trees tree_i] in H2.
+  apply (loop_detect_for en props _ q off [exit_st] Hok); [|reflexivity].
+  pose proof (depth2_le en props q off) as Hd2. rewrite depths_app in H2. unfold T. subst p. lia.
+Qed.
+Print Assumptions for_handler.
